@@ -309,6 +309,7 @@ type fakeCtrl struct {
 	name      string
 	inc       int // incarnation number for this name
 	failAsync bool
+	inflight  bool
 	w         *world
 	q         *fakeQueue
 
@@ -335,6 +336,9 @@ func (f *fakeCtrl) Start(ctx context.Context) error {
 	}
 	close(f.started)
 	<-ctx.Done()
+	if f.inflight {
+		_ = f.w.eng.StartWatches(f.name, f.w.watchFor(f.name, xrWatch(f.name), f.w.clock.Add(1)))
+	}
 	return nil
 }
 
@@ -429,6 +433,10 @@ const (
 	ncOK = iota
 	ncSyncFail
 	ncAsyncFail
+	// ncInflight: like a controller-runtime controller, Start returns only after its workers are
+	// done, and one reconcile is in flight when the context is cancelled: it goes on to ask the
+	// engine for a watch (as the XR reconciler does in every reconcile) before it returns
+	ncInflight
 )
 
 // world is one real engine with its fakes.
@@ -491,7 +499,7 @@ func (w *world) ncFn(mode int) engine.NewControllerFn {
 			w.syncFails++
 			return nil, errors.New("injected: cannot create controller")
 		}
-		fc := &fakeCtrl{name: name, inc: len(w.incs[name]), failAsync: mode == ncAsyncFail, w: w, started: make(chan struct{})}
+		fc := &fakeCtrl{name: name, inc: len(w.incs[name]), failAsync: mode == ncAsyncFail, inflight: mode == ncInflight, w: w, started: make(chan struct{})}
 		fc.q = &fakeQueue{ctrl: fc}
 		w.incs[name] = append(w.incs[name], fc)
 		return fc, nil
